@@ -293,12 +293,14 @@ Record Layered (n : net) : Prop := {
   l_sets     : NoDup (n_in n ++ hidden n ++ n_out n);
   l_rank     : exists rank, rank_ok n rank;
   l_incoming : forall v, In v (hidden n) \/ In v (n_out n) -> exists a, In (a, v) (n_con n);
+  l_keys     : NoDup (map fst (n_act n));
   l_act      : forall v, In v (map fst (n_act n)) <-> In v (hidden n) \/ In v (n_out n)
 }.
 Lemma Valid_Layered n : Valid n -> Layered n.
 Proof.
   intro V. constructor.
-  - apply (v_sets n V). - apply (v_rank n V). - apply (v_incoming n V). - apply (proj2 (v_activs n V)).
+  - apply (v_sets n V). - apply (v_rank n V). - apply (v_incoming n V).
+  - apply (proj1 (v_activs n V)). - apply (proj2 (v_activs n V)).
 Qed.
 
 Lemma purpose_In n v : In v (purpose n) <-> In v (n_in n) \/ In v (hidden n) \/ In v (n_out n).
@@ -548,4 +550,255 @@ Proof.
   { induction ts as [|t ts IH]; intros ps0 H; simpl; auto.
     apply IH. apply add_pair_rows; auto. }
   apply G. intros p [].
+Qed.
+
+(* ------------------------------------------------------------------ activation groups *)
+Definition has_code (acts : list (nat * nat)) (c v : nat) : bool :=
+  match alookup v acts with Some c' => c' =? c | None => false end.
+
+Fixpoint glookup (c : nat) (acc : list (nat * list nat)) : list nat :=
+  match acc with
+  | [] => []
+  | p :: r => if c =? fst p then snd p else glookup c r
+  end.
+
+Lemma filter_snoc {A} (f : A -> bool) l x :
+  filter f (l ++ [x]) = filter f l ++ (if f x then [x] else []).
+Proof. rewrite filter_app. simpl. destruct (f x); auto. Qed.
+
+Lemma add_code_same c t acc : glookup c (add_code c t acc) = glookup c acc ++ [t].
+Proof.
+  induction acc as [|p r IH]; simpl.
+  - rewrite Nat.eqb_refl. reflexivity.
+  - destruct (c =? fst p) eqn:E; simpl; rewrite E; auto.
+Qed.
+Lemma add_code_other c c' t acc : c' <> c -> glookup c' (add_code c t acc) = glookup c' acc.
+Proof.
+  intro H. induction acc as [|p r IH]; simpl.
+  - apply Nat.eqb_neq in H. rewrite H. reflexivity.
+  - destruct (c =? fst p) eqn:E; simpl.
+    + destruct (c' =? fst p) eqn:E2; auto. apply Nat.eqb_eq in E. apply Nat.eqb_eq in E2. congruence.
+    + rewrite IH. reflexivity.
+Qed.
+Lemma add_code_keys c t acc x :
+  In x (map fst (add_code c t acc)) <-> x = c \/ In x (map fst acc).
+Proof.
+  induction acc as [|p r IH]; simpl.
+  - intuition.
+  - destruct (c =? fst p) eqn:E; simpl.
+    + apply Nat.eqb_eq in E. subst. intuition.
+    + rewrite IH. intuition.
+Qed.
+Lemma add_code_NoDup c t acc : NoDup (map fst acc) -> NoDup (map fst (add_code c t acc)).
+Proof.
+  induction acc as [|p r IH]; simpl; intro H.
+  - repeat constructor; auto.
+  - inversion H; subst. destruct (c =? fst p) eqn:E; simpl.
+    + constructor; auto.
+    + constructor; auto. rewrite add_code_keys. intros [Hc|Hc]; auto.
+      subst. rewrite Nat.eqb_refl in E. discriminate.
+Qed.
+Lemma glookup_In c ns acc : NoDup (map fst acc) -> In (c, ns) acc -> glookup c acc = ns.
+Proof.
+  induction acc as [|p r IH]; simpl; intros H Hin; [destruct Hin|].
+  inversion H; subst. destruct Hin as [E|Hin].
+  - subst. simpl. rewrite Nat.eqb_refl. reflexivity.
+  - destruct (c =? fst p) eqn:E.
+    + apply Nat.eqb_eq in E. exfalso. apply H2. rewrite <- E. apply in_map_iff. exists (c, ns). auto.
+    + apply IH; auto.
+Qed.
+
+(* nodes_i after processing the targets [done]: the entry of code c holds exactly the targets
+   with that code, in order; a code has an entry iff some target has it *)
+Definition ag_inv (acts : list (nat * nat)) (done : list nat) (acc : list (nat * list nat)) : Prop :=
+  NoDup (map fst acc) /\
+  (forall c, glookup c acc = filter (has_code acts c) done) /\
+  (forall c, In c (map fst acc) <-> filter (has_code acts c) done <> []).
+
+Lemma add_code_inv acts done acc c t :
+  alookup t acts = Some c -> ag_inv acts done acc -> ag_inv acts (done ++ [t]) (add_code c t acc).
+Proof.
+  intros Hc [I1 [I2 I3]].
+  assert (Hself : has_code acts c t = true) by (unfold has_code; rewrite Hc; apply Nat.eqb_refl).
+  assert (Hother : forall c', c' <> c -> has_code acts c' t = false).
+  { intros c' Hn. unfold has_code. rewrite Hc. apply Nat.eqb_neq. auto. }
+  split; [apply add_code_NoDup; auto|]. split.
+  - intro c'. destruct (Nat.eq_dec c' c) as [->|Hn].
+    + rewrite add_code_same, filter_snoc, Hself, I2. reflexivity.
+    + rewrite add_code_other, filter_snoc, Hother, app_nil_r by auto. apply I2.
+  - intro c'. rewrite add_code_keys, filter_snoc. destruct (Nat.eq_dec c' c) as [->|Hn].
+    + rewrite Hself. split.
+      * intros _ E. apply app_eq_nil in E. destruct E; discriminate.
+      * intros _. left. reflexivity.
+    + rewrite Hother, app_nil_r by auto. rewrite <- I3. split.
+      * intros [E|E]; [congruence|exact E].
+      * intro E. right. exact E.
+Qed.
+
+Lemma act_groups_inv acts ts : forall done acc ag,
+  act_groups acts ts acc = Some ag -> ag_inv acts done acc -> ag_inv acts (done ++ ts) ag.
+Proof.
+  induction ts as [|t r IH]; intros done acc ag H I; simpl in H.
+  - inversion H; subst. rewrite app_nil_r. auto.
+  - destruct (alookup t acts) as [c|] eqn:E; [|discriminate].
+    replace (done ++ t :: r) with ((done ++ [t]) ++ r) by (rewrite <- app_assoc; reflexivity).
+    eapply IH; eauto. apply add_code_inv; auto.
+Qed.
+
+(* the activation groups of a schedule group: codes distinct, the nodes of code c are exactly the
+   targets with that code, in target order, and non-empty *)
+Lemma act_groups_spec acts ts ag :
+  act_groups acts ts [] = Some ag ->
+  NoDup (map fst ag) /\
+  (forall c ns, In (c, ns) ag -> ns = filter (has_code acts c) ts /\ ns <> []) /\
+  (forall v c, In v ts -> alookup v acts = Some c -> In (c, filter (has_code acts c) ts) ag).
+Proof.
+  intro H. destruct (act_groups_inv acts ts [] [] ag H) as [I1 [I2 I3]].
+  { split; [constructor|]. split; intro c; simpl; [reflexivity|]. split; [intros []|intro Hc; congruence]. }
+  simpl in *. split; auto. split.
+  - intros c ns Hin. rewrite <- I2. rewrite (glookup_In c ns ag I1 Hin). split; auto.
+    rewrite <- (glookup_In c ns ag I1 Hin), I2. apply I3. apply in_map_iff. exists (c, ns). auto.
+  - intros v c Hv Hl.
+    assert (Hne : filter (has_code acts c) ts <> []).
+    { intro E. assert (Hin : In v (filter (has_code acts c) ts)).
+      { apply filter_In. split; auto. unfold has_code. rewrite Hl. apply Nat.eqb_refl. }
+      rewrite E in Hin. destruct Hin. }
+    apply I3 in Hne. apply in_map_iff in Hne. destruct Hne as [[c' ns] [E Hin]]. simpl in E. subst c'.
+    rewrite <- I2, (glookup_In c ns ag I1 Hin). auto.
+Qed.
+
+(* ------------------------------------------------------------------ more on the pairs table *)
+Lemma natlist_eqb_refl a : natlist_eqb a a = true.
+Proof. induction a as [|x a IH]; simpl; auto. rewrite Nat.eqb_refl. auto. Qed.
+
+Lemma add_pair_fst key t w ps k :
+  In k (map fst (add_pair key t w ps)) <-> In k (map fst ps) \/ k = key.
+Proof.
+  induction ps as [|p r IH]; simpl.
+  - intuition.
+  - destruct (natlist_eqb (fst p) key) eqn:E; simpl.
+    + apply natlist_eqb_eq in E. intuition. subst. auto.
+    + rewrite IH. intuition.
+Qed.
+Lemma add_pair_fst_NoDup key t w ps :
+  NoDup (map fst ps) -> NoDup (map fst (add_pair key t w ps)).
+Proof.
+  induction ps as [|p r IH]; simpl; intro H.
+  - repeat constructor; auto.
+  - inversion H; subst. destruct (natlist_eqb (fst p) key) eqn:E; simpl.
+    + constructor; auto.
+    + constructor; auto. rewrite add_pair_fst. intros [Hc|Hc]; auto.
+      rewrite Hc, natlist_eqb_refl in E. discriminate.
+Qed.
+Lemma build_pairs_fst_NoDup con : NoDup (map fst (build_pairs con)).
+Proof.
+  unfold build_pairs.
+  assert (G : forall ts ps0, NoDup (map fst ps0) ->
+            NoDup (map fst (fold_left (fun ps t => let e := entries con t in
+                                       add_pair (map fst e) t (map snd e) ps) ts ps0))).
+  { induction ts as [|t ts IH]; intros ps0 H; simpl; auto.
+    apply IH. apply add_pair_fst_NoDup; auto. }
+  apply G. constructor.
+Qed.
+Lemma fst_inj (ps : list pairT) p q :
+  NoDup (map fst ps) -> In p ps -> In q ps -> fst p = fst q -> p = q.
+Proof.
+  induction ps as [|x r IH]; simpl; intros ND Hp Hq E; [destruct Hp|].
+  inversion ND; subst. destruct Hp as [<-|Hp], Hq as [<-|Hq]; auto.
+  - exfalso. apply H1. rewrite E. apply in_map. auto.
+  - exfalso. apply H1. rewrite <- E. apply in_map. auto.
+Qed.
+
+(* the targets of a group are strictly ascending *)
+Lemma sorted_snoc l t : StronglySorted lt l -> Forall (fun v => v < t) l -> StronglySorted lt (l ++ [t]).
+Proof.
+  induction 1; simpl; intro HF.
+  - repeat constructor.
+  - inversion HF; subst. constructor; auto. apply Forall_app. split; auto.
+Qed.
+Definition ts_sorted (ps : list pairT) : Prop := forall p, In p ps -> StronglySorted lt (p_ts p).
+Lemma add_pair_sorted key t w ps :
+  (forall v, In v (all_ts ps) -> v < t) -> ts_sorted ps -> ts_sorted (add_pair key t w ps).
+Proof.
+  intros Hlt H. induction ps as [|p r IH]; simpl.
+  - intros p' [E|[]]. subst. unfold p_ts. simpl. repeat constructor.
+  - assert (Hr : forall v, In v (all_ts r) -> v < t).
+    { intros v Hv. apply Hlt. unfold all_ts in *. simpl. apply in_app_iff. auto. }
+    destruct (natlist_eqb (fst p) key).
+    + intros p' [E|Hp].
+      * subst. unfold p_ts. simpl. apply sorted_snoc.
+        -- apply (H p). simpl; auto.
+        -- apply Forall_forall. intros v Hv. apply Hlt. unfold all_ts. simpl. apply in_app_iff. auto.
+      * apply (H p'). simpl; auto.
+    + intros p' [E|Hp].
+      * subst. apply (H p'). simpl; auto.
+      * apply IH; auto. intros q Hq. apply (H q). simpl; auto.
+Qed.
+Lemma build_pairs_sorted con : ts_sorted (build_pairs con).
+Proof.
+  unfold build_pairs.
+  assert (G : forall ts ps0, StronglySorted lt ts ->
+            (forall v t, In v (all_ts ps0) -> In t ts -> v < t) -> ts_sorted ps0 ->
+            ts_sorted (fold_left (fun ps t => let e := entries con t in
+                                  add_pair (map fst e) t (map snd e) ps) ts ps0)).
+  { induction ts as [|t ts IH]; intros ps0 HS Hlt H; simpl; auto.
+    inversion HS; subst. apply IH; auto.
+    - intros v u Hv Hu.
+      assert (Hv' : In v (t :: all_ts ps0)).
+      { eapply Permutation_in; [apply add_pair_ts|exact Hv]. }
+      destruct Hv' as [<-|Hv'].
+      + rewrite Forall_forall in H3. auto.
+      + apply Hlt; simpl; auto.
+    - apply add_pair_sorted; auto. intros v Hv. apply Hlt; simpl; auto. }
+  apply G.
+  - apply usort_sorted.
+  - intros v t [].
+  - intros p [].
+Qed.
+
+Lemma sorted_filter (f : nat -> bool) l : StronglySorted lt l -> StronglySorted lt (filter f l).
+Proof.
+  induction 1; simpl. constructor. destruct (f a); auto. constructor; auto.
+  apply Forall_forall. intros x Hx. apply filter_In in Hx. rewrite Forall_forall in H0. apply H0. tauto.
+Qed.
+Lemma sorted_lt_ext l1 : forall l2,
+  StronglySorted lt l1 -> StronglySorted lt l2 -> (forall x, In x l1 <-> In x l2) -> l1 = l2.
+Proof.
+  induction l1 as [|a l1 IH]; intros [|b l2] H1 H2 HE; auto.
+  - exfalso. apply (HE b). simpl; auto.
+  - exfalso. apply (HE a). simpl; auto.
+  - inversion H1; subst. inversion H2; subst. rewrite Forall_forall in H4, H6.
+    assert (a = b).
+    { assert (Ha : In a (b :: l2)) by (apply HE; simpl; auto).
+      assert (Hb : In b (a :: l1)) by (apply HE; simpl; auto).
+      destruct Ha as [Ha|Ha]; auto. destruct Hb as [Hb|Hb]; auto.
+      apply H6 in Ha. apply H4 in Hb. lia. }
+    subst b. f_equal. apply IH; auto. intro x. split; intro Hx.
+    + assert (Hin : In x (a :: l2)) by (apply HE; simpl; auto).
+      destruct Hin as [<-|Hin]; auto. apply H4 in Hx. lia.
+    + assert (Hin : In x (a :: l1)) by (apply HE; simpl; auto).
+      destruct Hin as [<-|Hin]; auto. apply H6 in Hx. lia.
+Qed.
+Lemma ins_nat_In' x l y : In y (ins_nat x l) <-> y = x \/ In y l.
+Proof.
+  induction l as [|h t IH]; simpl; [intuition|].
+  destruct (x <=? h); simpl; rewrite ?IH; intuition.
+Qed.
+Lemma sort_nat_sorted l : NoDup l -> StronglySorted lt (sort_nat l).
+Proof.
+  induction l as [|x l IH]; simpl; intro ND. constructor.
+  inversion ND; subst. specialize (IH H2). unfold sort_nat in *. simpl.
+  assert (Hx : ~ In x (fold_right ins_nat [] l)).
+  { intro Hc. apply H1. clear - Hc. induction l as [|h t IH]; simpl in *; auto.
+    apply ins_nat_In' in Hc. destruct Hc; auto. }
+  revert IH Hx. generalize (fold_right ins_nat [] l). clear. intro m.
+  induction m as [|h t IH]; simpl; intros HS Hx.
+  - repeat constructor.
+  - inversion HS; subst. destruct (x <=? h) eqn:E.
+    + apply Nat.leb_le in E. assert (x <> h) by (intro; subst; apply Hx; simpl; auto). assert (x < h) by lia.
+      constructor; auto. constructor; auto. eapply Forall_impl; [|exact H2]. intros; simpl in *; lia.
+    + apply Nat.leb_gt in E. constructor.
+      * apply IH; auto.
+      * apply Forall_forall. intros y Hy. apply ins_nat_In' in Hy. destruct Hy as [->|Hy]; auto.
+        rewrite Forall_forall in H2. auto.
 Qed.
